@@ -1055,6 +1055,10 @@ func (g *fgen) makeResources() {
 	}
 	b = 0
 	g.addRes(fres{name: "samp", kind: "samp", decl: "sampler", group: 1, binding: nb(), stages: "vfc"})
+	if g.chance(50, "r-s2") && !g.is("sampler.second") {
+		// a second sampler of the same kind: one texture may then be sampled through both
+		g.addRes(fres{name: "samp_b", kind: "samp", decl: "sampler", group: 1, binding: nb(), stages: "vfc"})
+	}
 	if g.chance(50, "r-sc") {
 		g.addRes(fres{name: "samp_cmp", kind: "samp-cmp", decl: "sampler_comparison", group: 1, binding: nb(), stages: "vfc"})
 	}
